@@ -10,10 +10,41 @@ VERIF = os.path.dirname(HERE)
 sys.path.insert(0, HERE)
 from mutants import BENIGN
 
+RENAMES = [("_multi_pg_snd_buffer", "_mpg_pending"), ("_snd_buffer", "_tx_sessions"), ("_rcv_buffer", "_rx_sessions"),
+           ("_timer_events", "_timers"), ("_subscribers", "_listeners"), ("_job_thread_wakeup_queue", "_wakeup_q")]
+
+
+def make_rename_patch(path):
+    """Package-wide rename of private attributes, regenerated from the current /repo (a static patch goes stale)."""
+    import re
+    import shutil
+    import tempfile
+    repo = os.environ.get("VERIF_REPO", "/repo")
+    tmp = tempfile.mkdtemp(prefix="rename_")
+    try:
+        for side in ("a", "b"):
+            shutil.copytree(os.path.join(repo, "j1939"), os.path.join(tmp, side, "j1939"), ignore=shutil.ignore_patterns("__pycache__"))
+        for root, _, files in os.walk(os.path.join(tmp, "b")):
+            for f in files:
+                if f.endswith(".py"):
+                    fp = os.path.join(root, f)
+                    txt = open(fp).read()
+                    for old, new in RENAMES:
+                        txt = re.sub(r"(?<![A-Za-z0-9_])" + re.escape(old) + r"(?![A-Za-z0-9_])", new, txt)
+                    open(fp, "w").write(txt)
+        r = subprocess.run(["diff", "-ruN", "a/j1939", "b/j1939"], cwd=tmp, capture_output=True, text=True)
+        os.makedirs(os.path.dirname(path), exist_ok=True)
+        open(path, "w").write(r.stdout)
+    finally:
+        shutil.rmtree(tmp, ignore_errors=True)
+
+
 ids = [c["property_id"] for c in json.load(open(os.path.join(VERIF, "MANIFEST.json")))["checks"]]
 names = [a for a in sys.argv[1:] if not a.startswith("--")] or (list(BENIGN) + ["patch:rename_private_attrs"])
 bad = 0
 for name in names:
+    if name == "patch:rename_private_attrs":
+        make_rename_patch(os.path.join(HERE, "benign", name[6:], "patch.diff"))
     if name.startswith("patch:"):
         cmd = ["/venv/bin/python", os.path.join(HERE, "mutate.py"), "--suite", "--patch", os.path.join(HERE, "benign", name[6:], "patch.diff")] + ids
     else:
